@@ -53,6 +53,17 @@ def run_one(q, cls, n, seed, image, train=True):
     import vector_quantize_pytorch.residual_vq as m_rvq, vector_quantize_pytorch.residual_fsq as m_rfsq, vector_quantize_pytorch.residual_lfq as m_rlfq
     d = DIMS[cls]
     x = torch.randn(2, d, 3, 2) if image else torch.randn(2, 5, d)
+    # the depth depends on the seed only, not on the DATA: structured inputs whose residual vanishes early (all zeros, values on the first
+    # layer's grid, one group of channels zero)
+    if 'SimVQ' in cls:
+        pass        # all-zero input vectors hit the known SimVQ rotation-trick finding (D21, C02); its decode identity is not C12's subject
+    elif seed % 5 == 1:
+        x = torch.zeros_like(x)
+    elif seed % 5 == 2:
+        x = torch.randint(-1, 2, x.shape).float() * 0.5
+    elif seed % 5 == 3:
+        x = x.clone()
+        (x[:, : d // 2] if image else x[..., : d // 2]).zero_()
     q.train(train)
     grouped = cls.startswith('Grouped')
     used = {'seed': seed}
